@@ -50,7 +50,10 @@ def _merge_stubs_overloads(obj: Module | Class, stubs: Module | Class) -> None:
         if overloads:
             # The concrete member can be an alias (an imported object) whose target cannot be resolved.
             with suppress(KeyError, AliasResolutionError, CyclicAliasError):
-                obj.get_member(function_name).overloads = overloads
+                # Only a function takes an overload list: the `overloads` of a class or module is its own dict.
+                obj_member = obj.get_member(function_name)
+                if obj_member.is_function:
+                    obj_member.overloads = overloads
         del stubs.overloads[function_name]
 
 
